@@ -59,12 +59,81 @@ def locals_created(fn):
     return created
 
 
+MUTABLE_ANN = {"List", "list", "Dict", "dict", "Set", "set", "ndarray", "MutableMapping", "MutableSet", "MutableSequence", "bytearray"}
+NUMERIC_CALLS = {"len", "int", "float", "str", "bool", "abs", "round", "sum", "min", "max", "tuple", "frozenset", "ceil", "floor", "sqrt"}
+
+
+def _mutable_expr(e):
+    """does this expression (possibly) evaluate to a mutable container built by a literal / constructor?"""
+    if isinstance(e, (ast.List, ast.Dict, ast.Set, ast.ListComp, ast.DictComp, ast.SetComp)):
+        return True
+    if isinstance(e, ast.Call):
+        if isinstance(e.func, ast.Name) and e.func.id in ("list", "dict", "set", "bytearray", "defaultdict", "OrderedDict", "deque"):
+            return True
+        # x.get(k, <mutable default>) / getattr(o, n, <mutable default>) / dict.setdefault / pop with default
+        if isinstance(e.func, (ast.Attribute, ast.Name)) and len(e.args) >= 2 and any(_mutable_expr(a) for a in e.args[1:]):
+            return True
+    if isinstance(e, ast.IfExp):
+        return _mutable_expr(e.body) or _mutable_expr(e.orelse)
+    if isinstance(e, ast.BoolOp):
+        return any(_mutable_expr(v) for v in e.values)
+    return False
+
+
+def _immutable_expr(e, imm_names):
+    if isinstance(e, ast.Constant) or isinstance(e, (ast.Tuple, ast.Compare, ast.JoinedStr)):
+        return True
+    if isinstance(e, ast.Name):
+        return e.id in imm_names
+    if isinstance(e, ast.BinOp):
+        return _immutable_expr(e.left, imm_names) or _immutable_expr(e.right, imm_names)
+    if isinstance(e, ast.UnaryOp):
+        return _immutable_expr(e.operand, imm_names)
+    if isinstance(e, ast.Call) and isinstance(e.func, ast.Name) and e.func.id in NUMERIC_CALLS:
+        return True
+    if isinstance(e, ast.IfExp):
+        return _immutable_expr(e.body, imm_names) and _immutable_expr(e.orelse, imm_names)
+    return False
+
+
+def augassign_violations(fn, created, params):
+    """`x op= e` on a plain name rebinds x when x holds an immutable value and mutates the object in place when it
+    holds a list / set / dict / array.  It is accepted when x is a container this activation created itself, refuted
+    when some binding of x can yield a mutable container that the activation did not create exclusively (a mutable
+    default of .get(), a parameter annotated with a mutable container type), and otherwise accepted under the recorded
+    assumption that x holds an immutable value."""
+    out = []
+    binds = {}
+    anns = {a.arg: a.annotation for a in fn.args.posonlyargs + fn.args.args + fn.args.kwonlyargs}
+    for n in ast.walk(fn):
+        if isinstance(n, (ast.Assign, ast.AnnAssign)) and n.value is not None:
+            for t in (n.targets if isinstance(n, ast.Assign) else [n.target]):
+                if isinstance(t, ast.Name):
+                    binds.setdefault(t.id, []).append(n.value)
+    for n in ast.walk(fn):
+        if isinstance(n, ast.AugAssign) and isinstance(n.target, ast.Name):
+            x = n.target.id
+            op = type(n.op).__name__
+            if x in created and x not in params:
+                continue
+            ann = anns.get(x)
+            if ann is not None and any(isinstance(m, ast.Name) and m.id in MUTABLE_ANN or isinstance(m, ast.Attribute) and m.attr in MUTABLE_ANN
+                                       for m in ast.walk(ann)):
+                out.append(f"line {n.lineno}: in-place operator {op} on parameter {x} of mutable container type")
+                continue
+            if any(_mutable_expr(v) for v in binds.get(x, [])):
+                out.append(f"line {n.lineno}: in-place operator {op} on {x}, which may be a mutable container not created "
+                           f"exclusively by this call (it may alias a value reachable from an argument)")
+    return out
+
+
 def frame_violations(path, qual, fn):
     """stores into values the activation did not create"""
     out = []
     params = {a.arg for a in fn.args.posonlyargs + fn.args.args + fn.args.kwonlyargs}
     created = locals_created(fn)
     is_init = qual.endswith(".__init__") or qual.endswith(".__new__")
+    out += augassign_violations(fn, created, params)
     for n in ast.walk(fn):
         tgts = []
         if isinstance(n, ast.Assign):
